@@ -505,3 +505,47 @@ impl<K: Ord, V: PartialEq> SymmetricFoldMap<K, V> for BTreeMap<K, V> {
         self.iter().fold(init, f)
     }
 }
+
+/// Verification hooks (add-only, compiled only with `--cfg cormacrelf_incremental_rs_verif`):
+/// direct access to the crate-private iterator state machines.
+#[cfg(cormacrelf_incremental_rs_verif)]
+pub mod verif {
+    use super::*;
+
+    pub fn merge_once(a: Vec<i64>, b: Vec<i64>) -> Vec<i64> {
+        MergeOnce::new(a.into_iter(), b.into_iter()).collect()
+    }
+
+    pub fn merge_once_with<L, R>(
+        a: Vec<L>,
+        b: Vec<R>,
+        fcmp: impl Fn(&L, &R) -> Ordering,
+    ) -> Vec<MergeElement<L, R>> {
+        MergeOnceWith::new(a.into_iter(), b.into_iter(), fcmp).collect()
+    }
+
+    pub fn symmetric_diff_owned<K: Ord, V: PartialEq>(
+        a: BTreeMap<K, V>,
+        b: BTreeMap<K, V>,
+    ) -> Vec<DiffElement<(K, V)>> {
+        a.symmetric_diff_owned(b).collect()
+    }
+
+    pub fn symmetric_diff<K: Ord + Clone, V: PartialEq + Clone>(
+        a: &BTreeMap<K, V>,
+        b: &BTreeMap<K, V>,
+    ) -> Vec<(K, DiffElement<V>)> {
+        a.symmetric_diff(b)
+            .map(|(k, e)| {
+                (
+                    k.clone(),
+                    match e {
+                        DiffElement::Left(v) => DiffElement::Left(v.clone()),
+                        DiffElement::Right(v) => DiffElement::Right(v.clone()),
+                        DiffElement::Unequal(a, b) => DiffElement::Unequal(a.clone(), b.clone()),
+                    },
+                )
+            })
+            .collect()
+    }
+}
